@@ -7,6 +7,7 @@ UNIVERSE = {
     "MCStorage_quick.cfg": dict(users=["", "u"], epochs=[1, 2], versions=[1, 2], nodes=["n1"]),
     "MCStorage_txn.cfg": dict(users=["", "u"], epochs=[1, 2], versions=[1, 2], nodes=["n1"]),
     "MCStorage_cache.cfg": dict(users=["u"], epochs=[1, 2], versions=[1, 2], nodes=["n1"]),
+    "MCStorage_flush.cfg": dict(users=["u"], epochs=[1], versions=[1, 2], nodes=["n1"]),
     "MCStorage_sim.cfg": dict(users=["", "u", "w"], epochs=[1, 2, 3, 4], versions=[1, 2, 3, 4], nodes=["n1", "n2"]),
 }
 
@@ -131,6 +132,12 @@ def c16():
     else:
         limit = 4000
     vacuity_guard(chk, "MCStorage_cache_pinned.cfg", "cache filled before the database write")
+    # another instance writes to the database; after flush_cache the reads must reflect storage (also while cleaning is disabled)
+    flush_exported = export_storage(chk, "MCStorage_flush.cfg")
+    vacuity_guard(chk, "MCStorage_flush_pinned.cfg", "flush skipped while cache cleaning is disabled")
+    fl = [x for x in flush_exported if any(st["op"] == "ext_set" for st in x[1]) and any(st["op"] == "flush" for st in x[1])]
+    rnd0 = random.Random(chk.seed + 3)
+    fl = rnd0.sample(fl, min(len(fl), 1500 if chk.tier == "quick" else 20000))
     deep = [x for x in exported if x[0] == "MCStorage_sim.cfg"]
     flat = [x for x in exported if x[0] != "MCStorage_sim.cfg"]
     # prefer behaviours that exercise the cache: flush, sleep, rejected writes, reads before writes
@@ -139,6 +146,7 @@ def c16():
     rest = [x for x in flat if x not in interesting] if len(flat) < 20000 else []
     pick = (rnd.sample(interesting, min(len(interesting), limit * 3 // 4)) + rnd.sample(rest, min(len(rest), limit // 4))) if limit else flat
     bs = behaviours_from(chk, pick, ["default", "short", "tiny", "default"], "every", None)
+    bs += [dict(b, id=len(bs) + i + 1) for i, b in enumerate(behaviours_from(chk, fl, ["default"], "every", None))]
     bs += [dict(b, id=len(bs) + i + 1) for i, b in enumerate(behaviours_from(chk, deep, ["default", "short", "tiny"], "every", None))]
     # concurrent tasks through one manager, scheduled at the ISSUE and the COMPLETION of every storage operation:
     # a reader whose database answer arrives after a write of the same key (cache fill racing with a write)
